@@ -31,15 +31,40 @@ def _kind(c):
     return c.req.split(" ", 1)[0]
 
 
+def _norm_nav(t):
+    # order inside the successor / predecessor lists, and the order in which locations() lists the locations the
+    # entries are printed for, are not part of the property
+    out = []
+    for entry in t.split(" ; "):
+        toks = []
+        for tok in entry.split(" "):
+            if "=[" in tok:
+                h, body = tok.split("=[", 1)
+                tok = h + "=[" + ",".join(sorted(body.rstrip("]").split(","))) + "]"
+            toks.append(tok)
+        out.append(" ".join(toks))
+    return sorted(out[1:]) + out[:1]
+
+
+def _canon(k, t):
+    """`locs`, `nav`, `rtf`, `rt`, `mig` print one entry per location in the order of Function::locations(); the
+    property fixes the (multi)set of locations, not the order in which they are enumerated"""
+    if t in ("-", "?", "bad-request", "panic") or t.startswith("err:"):
+        return t
+    if k == "locs":
+        return sorted(t.split())
+    if k == "nav":
+        return _norm_nav(t)
+    if k in ("rtf", "rt", "mig"):
+        return sorted(t.split(" ; "))
+    return t
+
+
 def classify(c):
     spec_silent = c.spec in ("-", "?")
     k = _kind(c)
     if not spec_silent:
-        if k == "locs":
-            # the property fixes the multiset of locations, not their order
-            if sorted(c.impl.split()) != sorted(c.spec.split()):
-                return "violation"
-        elif k == "addr":
+        if k == "addr":
             # the property: some instruction with that address is found whenever one exists
             reqaddrs = c.req.rsplit(")", 1)[1].split()
             impl = c.impl.split(" ; ")
@@ -51,31 +76,8 @@ def classify(c):
                     return "violation"
                 if i != "none" and i.rsplit(":", 1)[-1] != a:
                     return "violation"
-        elif k == "nav":
-            # order inside the successor / predecessor lists is not part of the property
-            def norm(t):
-                out = []
-                for entry in t.split(" ; "):
-                    toks = []
-                    for tok in entry.split(" "):
-                        if "=[" in tok:
-                            h, body = tok.split("=[", 1)
-                            tok = h + "=[" + ",".join(sorted(body.rstrip("]").split(","))) + "]"
-                        toks.append(tok)
-                    out.append(" ".join(toks))
-                return sorted(out[1:]) + out[:1]
-            if norm(c.impl) != norm(c.spec):
-                return "violation"
-        elif c.impl != c.spec:
+        elif _canon(k, c.impl) != _canon(k, c.spec):
             return "violation"
-    if c.impl != c.model:
+    if _canon(k, c.impl) != _canon(k, c.model):
         return "broken"
     return "ok"
-
-
-def nontrivial(c):
-    parts = c.cls.split("/")
-    feats = parts[-1] if len(parts) >= 3 else ""
-    if _kind(c) == "apply":
-        return True
-    return "e" in feats or "m" in feats
